@@ -58,24 +58,35 @@ fn validate_trailing_slash(root_path: &str, entry_details: &EntryDetails) -> Res
     Ok(())
 }
 
+/// What process_dest_responses should wait for.
+#[derive(Clone, Copy, PartialEq)]
+enum BlockUntil {
+    /// Don't wait - just process the responses which have already arrived.
+    Nothing,
+    /// The dest doer has worked through all the deletes (it echoes the marker which starts the copying).
+    DeletesDone,
+    /// The dest doer has finished everything.
+    AllDone,
+}
+
 /// To increase performance, we don't wait for the dest doer to confirm that every command we sent has been
 /// successfully completed before moving on to do something else (like sending the next command),
 /// so any errors that result won't be picked up until we check later, which is what we do here.
 /// This is called periodically to make sure nothing has gone wrong.
 /// It also handles progress bar updates, based on Marker commands that we send and the doer echoes back.
-/// If block_until_done is set, then this function will keep processing messages (blocking as necessary)
-/// until it finds a response with a progress marker that shows the doer is finished.
-/// If not set, this function won't block and will return once it's processed all pending responses from the doer.
+/// If block_until is set to something other than Nothing, then this function will keep processing messages
+/// (blocking as necessary) until it finds a response with a progress marker that shows the doer has got that far.
+/// Otherwise this function won't block and will return once it's processed all pending responses from the doer.
 /// If an error is encountered though, it will return rather than blocking.
 fn process_dest_responses(dest_comms: &mut Comms, progress: &mut Progress,
-    mut block_until_done: bool) -> Result<(), String>
+    mut block_until: BlockUntil) -> Result<(), String>
 {
     // To make the rest of this function consistent for both cases of block_until_done,
     // this helper function will block or not as appropriate.
     // It acts as an iterator, so returns None or Some.
-    let next_fn = |block_until_done| {
-        if block_until_done {
-            Some(dest_comms.receive_response()) // Blocking, as we need to wait until we find the Done marker value
+    let next_fn = |block_until| {
+        if block_until != BlockUntil::Nothing {
+            Some(dest_comms.receive_response()) // Blocking, as we need to wait until we find the marker value
         } else {
             match dest_comms.try_receive_response() { // Non-blocking
                 Ok(Some(r)) => Some(Ok(r)),
@@ -86,18 +97,21 @@ fn process_dest_responses(dest_comms: &mut Comms, progress: &mut Progress,
     };
 
     let mut errors = vec![]; // There might be multiple errors reported before we get round to checking for them
-    while let Some(x) = next_fn(block_until_done) {
+    while let Some(x) = next_fn(block_until) {
         match x {
             Ok(Response::Error(e)) => {
                 errors.push(e);
                 // If an error was encountered, don't block - just process the remaining messages to see if there
                 // were any other errors to report, then return the error(s)
-                block_until_done = false;
+                block_until = BlockUntil::Nothing;
             }
             Ok(Response::Marker(m)) => {
                 // Update the progress bar based on the progress that the dest doer has made.
                 progress.update_completed(&m);
                 if m.phase == ProgressPhase::Done {
+                    break;
+                }
+                if block_until == BlockUntil::DeletesDone && matches!(m.phase, ProgressPhase::Copying { .. }) {
                     break;
                 }
             }
@@ -308,7 +322,7 @@ fn sync_impl(mut ctx: SyncContext) -> Result<(), String> {
         ctx.stats.delete_start_time = Some(Instant::now());
         for (dest_path, (dest_details, _reason)) in actions.to_delete.iter() {
             delete_dest_entry(&mut ctx, &mut progress, dest_path, dest_details)?;
-            process_dest_responses(ctx.dest_comms, &mut progress, false)?;
+            process_dest_responses(ctx.dest_comms, &mut progress, BlockUntil::Nothing)?;
         }
     }
 
@@ -317,9 +331,15 @@ fn sync_impl(mut ctx: SyncContext) -> Result<(), String> {
         profile_this!("Sending copy commands");
         // Mark the exact start of copying, to make sure our timing stats are split accurately between copying and deleting
         ctx.dest_comms.send_command(Command::Marker(progress.get_progress_marker()))?;
+        // Make sure that all the deletes have worked before creating anything. If a dest entry couldn't be deleted
+        // then whatever was going to replace it can't be created, and if that dest entry is a symlink then the
+        // things to be created inside it would end up wherever it points to.
+        if !ctx.dry_run && actions.to_delete.len() > 0 {
+            process_dest_responses(ctx.dest_comms, &mut progress, BlockUntil::DeletesDone)?;
+        }
         for (src_path, (src_details, _reason)) in actions.to_copy.iter() {
             copy_entry(&mut ctx, &mut progress, &src_path, &src_details)?;
-            process_dest_responses(ctx.dest_comms, &mut progress, false)?;
+            process_dest_responses(ctx.dest_comms, &mut progress, BlockUntil::Nothing)?;
         }
     }
 
@@ -329,7 +349,7 @@ fn sync_impl(mut ctx: SyncContext) -> Result<(), String> {
     ctx.dest_comms.send_command(Command::Marker(m))?;
     {
         profile_this!("Waiting for dest to finish");
-        process_dest_responses(ctx.dest_comms, &mut progress, true)?;
+        process_dest_responses(ctx.dest_comms, &mut progress, BlockUntil::AllDone)?;
     }
 
     ctx.stats.delete_end_time = progress.get_first_copy_time();
@@ -1012,7 +1032,7 @@ fn copy_file(
 
             // For large files, it might be a while before process_dest_responses is called in the main sync function,
             // so check it periodically here too.
-            process_dest_responses(ctx.dest_comms, progress, false)?;
+            process_dest_responses(ctx.dest_comms, progress, BlockUntil::Nothing)?;
 
             if !more_to_follow {
                 break;
